@@ -24,5 +24,5 @@ def plan(tier, seed):
 
 
 def required(tier, classes, records):
-    pats = [("small sizes", r"nx,ny<=130"), ("large sizes", r"size>=1000"), ("all header variants", r"hdr4"), ("optional absent", r"noopt"), ("limiter", r"\+lim"), ("read_geqdsk spline", r"read_geqdsk\|spline"), ("read_geqdsk dct", r"read_geqdsk\|dct")]
+    pats = [("small sizes", r"nx,ny<=130"), ("large sizes", r"size>=1000"), ("all header variants", r"hdr4"), ("optional absent", r"noopt"), ("limiter", r"\+lim"), ("read_geqdsk spline", r"read_geqdsk\|spline"), ("read_geqdsk dct", r"read_geqdsk\|dct"), ("read_geqdsk of a box not centred on Z=0", r"read_geqdsk\|.*zmid!=0")]
     return need_classes(classes, pats)
